@@ -133,6 +133,8 @@ def mc_tables(crit, maxlen, extra, full2d, sub2d, big, huge):
         "ASSUME \\A w \\in Fam, h \\in Fam : SymAgrees(w, h)",
         # object histories over image modes: the code's rule holds, the sticky-buffer variant is refuted
         "ASSUME ModeHistoriesOK(BufferModeOf) /\\ ~ModeHistoriesOK(StickyBufferModeOf)",
+        # object histories over the image: tile_image only reads it; the flip-the-source-in-place variant is refuted
+        "ASSUME ImageHistoriesOK(SourceAfter) /\\ ~ImageHistoriesOK(SourceAfterFlipVariant)",
         ("MCSubLens", "{}"),
         "IdleInit == c = 0",
         "IdleNext == UNCHANGED c",
@@ -747,6 +749,10 @@ def reassembly_case(args):
             return retile_case(case, mode, fmt, dims, seed, flavour, d, sink), case
         if kind == "modes":
             return modes_case(case, fmt, dims, seed, d, sink), case
+        if kind == "imgobj":
+            return imgobj_case(case, mode, dims, seed, d, sink), case
+        if kind == "thumb":
+            return thumb_case(case, mode, dims, seed, d, sink), case
         if kind == "sub":
             W, H, ix, iy, sw, sh = dims
             prow = T.pair[(W, H)]
@@ -903,6 +909,101 @@ def modes_case(case, fmt, dims, seed, d, sink):
     return res
 
 
+IMGOBJ_ORDERS = (("fits", "npy", "fits", "fits", "npy"), ("npy", "fits", "npy"), ("fits", "fits", "npy", "fits"),
+                 ("png", "npy", "png"), ("fits", "npy"), ("npy", "npy", "fits", "npy"))
+
+
+def imgobj_case(case, mode, dims, seed, d, sink):
+    """Object history over the IMAGE (spec: ImageHistoriesOK): ONE Image object is tiled several times, into pyramids of
+    different formats / parities, in a seeded order (tile_study_image, Builder, or a prepared tiling); every tiling is read
+    back and must reproduce the image the caller built.  A changed source image is recorded as drift (the property
+    speaks about the tiles), the wrong tiling that follows from it is the violation."""
+    import contextlib
+    import numpy as np
+    from toasty.pyramid import PyramidIO
+    from toasty.study import StudyTiling, tile_study_image
+    from toasty.builder import Builder
+    from toasty.image import Image
+    res = []
+    w, h = dims
+    p2, lev, gx0, gy0, _cnt = T.pair[(w, h)]
+    colour = mode in ("RGB", "RGBA")
+    orders = [o for o in IMGOBJ_ORDERS if ("png" in o) == colour and not (colour and "fits" in o)]
+    order = orders[seed % len(orders)]
+    arr = make_image(mode, w, h, seed)
+    original = arr.copy()
+    source = Image.from_array(arr, default_format=order[0]) if seed % 2 else Image.from_array(arr)
+    changed = False
+    for step, fmt in enumerate(order):
+        scase = dict(case, step=step, order=list(order), format=fmt)
+        out = os.path.join(d, "out%d" % step)
+        with contextlib.redirect_stdout(sink), contextlib.redirect_stderr(sink):
+            try:
+                pio = PyramidIO(out, default_format=fmt)
+                if (seed + step) % 3 == 0:
+                    b = Builder(pio)
+                    b.tile_base_as_study(source)
+                elif (seed + step) % 3 == 1:
+                    tile_study_image(source, pio)
+                else:
+                    StudyTiling(w, h).tile_image(source, pio)
+                template = pio.get_path_scheme() + "." + fmt
+            except Exception as e:  # noqa
+                res.append(("V", "reassembly:imgobj:raises", "tiling step %d of %s raised %r" % (step, scase, e), scase))
+                continue
+        mosaic, undefined, problems = reassemble(out, template, lev, fmt, mode)
+        res.extend(judge_mosaic("reassembly:imgobj", scase, mosaic, undefined, problems, original, gx0, gy0, mode))
+        if not changed and not np.array_equal(np.asarray(source.asarray()), original):
+            changed = True
+            res.append(("D", "reassembly:imgobj:source", "tile_image changed the caller's Image object (step %d of %s)" % (step, scase), scase))
+    return res
+
+
+def thumb_case(case, mode, dims, seed, d, sink):
+    """Workflows that make a thumbnail from the image before tiling it (Builder.make_thumbnail_from_other +
+    tile_base_as_study, and the tile-study CLI without --placeholder-thumbnail) on PIL-backed images, including
+    sizes whose aspect equals the thumbnail's 96:45: the tiles must still reproduce the image."""
+    import contextlib
+    from PIL import Image as PILImage
+    from toasty.pyramid import PyramidIO
+    from toasty.builder import Builder
+    from toasty.image import Image
+    res = []
+    w, h = dims
+    p2, lev, gx0, gy0, _cnt = T.pair[(w, h)]
+    arr = make_image(mode, w, h, seed)
+    out = os.path.join(d, "out")
+    with contextlib.redirect_stdout(sink), contextlib.redirect_stderr(sink):
+        try:
+            if seed % 2:
+                from toasty import cli
+                src = os.path.join(d, "input.png")
+                PILImage.fromarray(arr).save(src)
+                case["workflow"] = "tile-study CLI with a real thumbnail"
+                try:
+                    cli.entrypoint(["tile-study", "--outdir", out, src])
+                except SystemExit as e:
+                    if e.code not in (0, None):
+                        raise RuntimeError("tile-study exited with %r: %s" % (e.code, sink.getvalue()[-300:]))
+            else:
+                case["workflow"] = "Builder.make_thumbnail_from_other + tile_base_as_study"
+                img = Image.from_pil(PILImage.fromarray(arr))
+                b = Builder(PyramidIO(out, default_format="png"))
+                b.make_thumbnail_from_other(img)
+                b.tile_base_as_study(img)
+                b.default_tiled_study_astrometry()
+                b.write_index_rel_wtml()
+            template, olev, _ft = wtml_template(out)
+        except Exception as e:  # noqa
+            res.append(("V", "reassembly:thumb:raises", "%s raised %r" % (case, e), case))
+            return res
+    if olev != lev:
+        res.append(("V", "reassembly:thumb:padded-size", "WTML TileLevels = %d for %s; depth of the smallest square is %d" % (olev, case, lev), case))
+    mosaic, undefined, problems = reassemble(out, template, lev, "png", mode)
+    res.extend(judge_mosaic("reassembly:thumb", case, mosaic, undefined, problems, arr, gx0, gy0, mode))
+    return res
+
+
 RETILE_PLANS = (("full", "holes", "full"), ("holes", "full", "holes"), ("full", "holes", "holes"), ("holes", "holes", "full"))
 
 
@@ -993,7 +1094,8 @@ def run(ctx):
     sizes_q = [(1, 1), (256, 256), (257, 255), (255, 257), (300, 513), (513, 2), (1025, 258)]
     sizes_t = sizes_q + [(512, 512), (511, 1024), (2, 1025), (1023, 1), (514, 513), (1100, 700), (256, 257)]
     sizes = sizes_q if quick else sizes_t
-    extra = sorted(set(sizes) | {(512, 512), (700, 600), (300, 513), (1025, 258), (768, 1024), (257, 255)})
+    extra = sorted(set(sizes) | {(512, 512), (700, 600), (300, 513), (1025, 258), (768, 1024), (257, 255),
+                                 (640, 300), (96, 45), (320, 150)})
     full2d = [(w, h) for w in crit for h in crit]
     big_l = [4095, 4096, 4097, 8191, 8193, 16385, 20000, 32769, 65537]
     big = [(a, b) for a in big_l for b in (1, 300, 1025)] + [(b, a) for a in big_l for b in (1, 300, 1025)]
@@ -1210,6 +1312,16 @@ def run(ctx):
             for k in range(4 if quick else 16):
                 dims = [(300, 513), (257, 255), (513, 2), (256, 256)][k % 4]
                 cases.append(("modes", "*", fmt, dims, (seed // 8) * 8 + 8 * len(cases) + k % 8, ctx.scratch, fmt, False))
+        # object histories over the image: one Image object tiled several times into pyramids of different parities
+        for k, mode in enumerate(("F32", "F64", "I16", "U8", "RGBA", "RGB", "F32", "I16") if quick else
+                                 ("F32", "F64", "I16", "U8", "RGBA", "RGB", "I32", "F16x3") * 4):
+            dims = [(300, 513), (257, 255), (513, 2), (256, 256)][k % 4]
+            if mode == "F16x3":
+                mode = "F64"
+            cases.append(("imgobj", mode, "*", dims, seed + len(cases), ctx.scratch, "*", False))
+        # a thumbnail is made from the image before it is tiled (PIL-backed images; 640x300 and 96x45 have the thumbnail's aspect)
+        for k, dims in enumerate([(640, 300), (640, 300), (96, 45), (300, 513), (320, 150), (257, 255)]):
+            cases.append(("thumb", ("RGB", "RGBA")[k % 2], "png", dims, 2 * (seed + len(cases)) + k % 2, ctx.scratch, "png", False))
         if only is not None:
             cases = [c for c in cases if "path" in only and [c[0], c[1], c[2], list(c[3]), c[4], c[6], c[7]] ==
                      [only["path"], only["mode"], only["format"], list(only["dims"]), only["seed"], only.get("image_format", c[2]),
